@@ -29,7 +29,9 @@ LINES = ["foo", "foo==1.0.0", "foo==2.0.0", "foo==2.0", "foo==10.0.0", "# just a
          # malformed lines: no package name; a pin that is not a version; (pip accepts blanks around ==)
          "==1.0", "foo==latest", "foo ==3.0.0",
          # forms pip knows and the '==' parser does not (one '=', an option, a direct reference): unsupported, ignored - never a package called like the whole line
-         "foo=1.0", "-r other.txt", "foo @ file:///x.whl"]
+         "foo=1.0", "-r other.txt", "foo @ file:///x.whl",
+         # an epoch pin is a valid '==' pin (PEP 440) and orders above every version without epoch; '!=' is the unsupported specifier, not '!'
+         "foo==1!0.5"]
 
 
 def _version_summary(interp, node, args, kwargs, cfg, out):
